@@ -359,7 +359,13 @@ impl<C: Suite> Interp<C> {
         if let Value::Object(m) = &mut res {
             m.insert("rng_req".into(), json!(reqs));
             if self.log_served {
-                m.insert("rng_served".into(), Value::Array(served.iter().map(|b| bytes_json(b)).collect()));
+                // canonical chunking: a request of k*32 bytes is logged as k draws of 32, so that the
+                // trace specifications do not depend on how the library batches its requests
+                let canon: Vec<&[u8]> = served
+                    .iter()
+                    .flat_map(|b| if b.len() > 32 && b.len() % 32 == 0 { b.chunks(32).collect::<Vec<_>>() } else { vec![b.as_slice()] })
+                    .collect();
+                m.insert("rng_served".into(), Value::Array(canon.iter().map(|b| bytes_json(b)).collect()));
             }
             if use_script {
                 m.insert("rng_unused".into(), json!(srng.unused()));
@@ -454,6 +460,7 @@ impl<C: Suite> Interp<C> {
                 let mut comm: Vec<CoefficientCommitment<C>> = ss.commitment().coefficients().to_vec();
                 match what {
                     "share" => share = share + Self::lit(st.get("d"))?,
+                    "zero" => share = F::<C>::zero(),
                     "id" => id = self.ident(&st["d"])?,
                     "commit" => {
                         let k = st["k"].as_u64().unwrap_or(1) as usize - 1;
